@@ -19,6 +19,7 @@ from sismic.exceptions import ConflictingTransitionsError, NonDeterminismError  
 
 DT = (0.125, 0.5, 1, 1, 1, 2, 5)
 DELAYS = (0, 0, 0, 0.125, 1, 1, 2, 5)
+DELAYS_NEG = (0, 0, 0, 0.125, 1, 1, 2, 5, -1, -0.125, -5)     # the repository's own tests queue events with a negative delay
 
 TIER = dict(
     quick=dict(steps=40, gen=dict(max_states=12, max_depth=4, max_trans=14)),
@@ -36,6 +37,7 @@ class Case:
     def __init__(self, acc, rnd, tier, case, mode, focus, gen_kw=None, via=None):
         self.acc, self.rnd, self.tier, self.case, self.mode, self.focus = acc, rnd, tier, case, mode, focus
         kw = dict(TIER[tier]['gen'])
+        kw.update(p_shared_text=0.15, p_active_call=0.1)
         kw.update(gen_kw or {})
         self.ch = gen_chart(rnd, mode=mode, **kw)
         self.tr = Tree(self.ch)
@@ -74,7 +76,7 @@ class Case:
                 except Exception:       # noqa
                     break
         self.it = Interpreter(self.sc, initial_context=self.pr.context())
-        self.it.attach(self.pr.listener())
+        self.it.attach(self.pr.listener(self.it))
         self.model = RefModel(self.ch)
         self.next_uid = 0
         self.queued = {}            # uid -> (name, due, internal)
@@ -105,7 +107,7 @@ class Case:
         for _ in range(n):
             self.next_uid += 1
             name = rnd.choice(self.ch['events'] + ['zz'])
-            d = rnd.choice(DELAYS)
+            d = rnd.choice(DELAYS_NEG if self.mode == 'queue' else DELAYS)
             evs.append((name, self.next_uid, d))
         if rnd.random() < 0.08:
             # the very same Event instance queued several times in one call
@@ -385,7 +387,7 @@ class Case:
             for s in ms.exited_states:
                 expected.append(('X', s))
                 owner.append(i)
-            if ms.transition is not None:
+            if ms.transition is not None and not self.tdict[self.tmap[id(ms.transition)]].get('action_text'):
                 expected.append(('A', self.tmap[id(ms.transition)]))
                 owner.append(i)
             for s in ms.entered_states:
